@@ -42,6 +42,7 @@ import DiskfsModel.Proofs.SqfsInode
 import DiskfsModel.Proofs.SqfsWalk
 import DiskfsModel.Proofs.SqfsImageRd
 import DiskfsModel.Proofs.SqfsImageWr
+import DiskfsModel.Proofs.SqfsRoundTrip
 import DiskfsModel.Generated.Sqfs
 namespace Diskfs.Sqfs.C07
 
@@ -340,11 +341,13 @@ theorem get_inode_finds_inode (c : Codec) (img : Dev) (tbl bs blockOff byteOff t
     getInodeM c img tbl bs blockOff byteOff typ = some i :=
   getInodeM_spec c img tbl bs blockOff byteOff typ i rest hwf htyp hts hask RM
 
-/-- `getDirectory` returns the listing that is encoded at the reference -/
+/-- `getDirectory` returns the listing that is encoded at the reference, when asked — as
+    `getDirectoryEntries` does — for the inode's file_size, 3 bytes more than the listing is long:
+    the 3 bytes that follow are read and ignored by `parseDirectory` -/
 theorem get_directory_finds_listing (c : Codec) (img : Dev) (tbl blockOff byteOff : Nat) (es : List DEnt) (rest : Bytes)
-    (hwf : ∀ e ∈ es, e.WF 0) (RM : ReadsFrom c img tbl blockOff byteOff (encodeListing 0 es ++ rest)) :
-    getDirM c img tbl blockOff byteOff (encodeListing 0 es).length = some es :=
-  getDirM_spec c img tbl blockOff byteOff es rest hwf RM
+    (hwf : ∀ e ∈ es, e.WF 0) (hrest : 3 ≤ rest.length) (RM : ReadsFrom c img tbl blockOff byteOff (encodeListing 0 es ++ rest)) :
+    getDirM c img tbl blockOff byteOff ((encodeListing 0 es).length + 3) = some es :=
+  getDirM_spec c img tbl blockOff byteOff es rest hwf hrest RM
 
 /-- **the reader walks the image**: if the image shows the tree to `readMetadata` (`ImgShows`: at
     every entry's reference the metadata stream starts with the entry's inode, at every directory's
@@ -378,6 +381,25 @@ theorem id_table_roundtrip (c : Codec) (noComp : Bool) (img : Dev) (loc idStart 
     readIdTable c img idStart ids.length = ids ∧ (idBlocks 16385 = 1 ∧ (16385 * 4 + 8191) / 8192 = 9) :=
   ⟨readIdTable_written c noComp img loc idStart ids hwf hn hT hI h64, id_blocks_wrap⟩
 
+/-- **block counts of the two-level lookup tables.**  For every number of entries: the number of
+    index pointers `readFragmentTable` takes (count/512, one more if count%512 > 0) is exactly the
+    number of metadata blocks `writeFragmentTable` cut, ⌈16·n / 8192⌉ — so an exact multiple of 512
+    fragments has n/512 blocks, not one more; for 1..16384 ids the count `readUidsGids` computes in
+    uint16 is the number of blocks `writeIDTable` cut, ⌈4·n / 8192⌉ (from 16385 ids on it is not:
+    recorded finding sqfs-idtable-uint16-blockcount) -/
+theorem lookup_table_block_counts :
+    (∀ ents : List FragEnt,
+      ents.length / 512 + (if ents.length % 512 > 0 then 1 else 0) = (metaChunks (fragStream ents)).length ∧
+      (metaChunks (fragStream ents)).length = (16 * ents.length + 8191) / 8192) ∧
+    (∀ ids : List Nat, 0 < ids.length → ids.length ≤ 16384 →
+      idBlocks ids.length = (metaChunks (idStream ids)).length ∧
+      (metaChunks (idStream ids)).length = (4 * ids.length + 8191) / 8192) ∧
+    (∀ k, 512 * k / 512 + (if 512 * k % 512 > 0 then 1 else 0) = k) :=
+  ⟨frag_block_count, id_block_count, fun k => by
+    have h1 : 512 * k % 512 = 0 := Nat.mul_mod_right 512 k
+    have h2 : 512 * k / 512 = k := Nat.mul_div_cancel_left k (by decide)
+    rw [h1, h2]; rfl⟩
+
 /-! non-vacuity: a device holding one compressed and one uncompressed metadata block (codec `rle`
     shrinks [5,5,5,5]) -/
 private def exBlocks : List Bytes := [[5, 5, 5, 5], [1, 2, 3]]
@@ -396,29 +418,30 @@ example : readFragTable mark exDev2 34 2 = some exFrags := by decide
 -- holds one inode-table block and one directory-table block
 private def iI : Bytes := encodeInode wRoot ++ encodeInode wFile
 private def iD : Bytes := encodeListing 0 [wT.dent 1]
-private def iDev : Dev := fun i => (metaTable mark false [iI, iD]).getD i 0
+private def iNext : Bytes := [7, 7, 7, 7]
+private def iDev : Dev := fun i => (metaTable mark false [iI, iD, iNext]).getD i 0
 private def iO : Opened := { bs := 4096, inodeStart := 0, dirStart := 74, frags := [], ids := [1000] }
 private def iA : Nat → Attr := fun _ => ⟨1000, 1000, []⟩
 private theorem iShows : ImgShows mark iDev iO wT iA := by
   have two : ∀ c, c < 2 → c = 0 ∨ c = 1 := by omega
-  have hok : ∀ x ∈ [iI, iD], BlockOK x := by
+  have hok : ∀ x ∈ [iI, iD, iNext], BlockOK x := by
     intro x hx
     simp at hx
-    rcases hx with rfl | rfl <;> exact ⟨by decide, by decide⟩
-  have hT : HoldsAt iDev 0 (metaTable mark false [iI, iD]) := by unfold HoldsAt; decide
-  have hTD : HoldsAt iDev 74 (metaTable mark false [iD]) := by unfold HoldsAt; decide
-  have r0 := readsFrom_of_table mark false iDev 0 [iI, iD] hok hT 0 0 (by decide) (by decide)
-  have r1 := readsFrom_of_table mark false iDev 0 [iI, iD] hok hT 0 40 (by decide) (by decide)
-  have rD := readsFrom_of_table mark false iDev 74 [iD] (fun x hx => hok x (by simp at hx ⊢; exact Or.inr hx)) hTD 0 0 (by decide) (by decide)
+    rcases hx with rfl | rfl | rfl <;> exact ⟨by decide, by decide⟩
+  have hT : HoldsAt iDev 0 (metaTable mark false [iI, iD, iNext]) := by unfold HoldsAt; decide
+  have hTD : HoldsAt iDev 74 (metaTable mark false [iD, iNext]) := by unfold HoldsAt; decide
+  have r0 := readsFrom_of_table mark false iDev 0 [iI, iD, iNext] hok hT 0 0 (by decide) (by decide)
+  have r1 := readsFrom_of_table mark false iDev 0 [iI, iD, iNext] hok hT 0 40 (by decide) (by decide)
+  have rD := readsFrom_of_table mark false iDev 74 [iD, iNext] (fun x hx => hok x (by simp at hx ⊢; exact Or.inr hx)) hTD 0 0 (by decide) (by decide)
   refine ⟨?_, ?_, ?_, ?_, ?_, ?_, ?_⟩
   · intro d hd c hc
     rcases two d hd with rfl | rfl <;> simp [wT] at hc ⊢
     omega
   · intro k hk
     rcases two k hk with rfl | rfl
-    · exact ⟨encodeInode wFile ++ iD, by simpa [iO, wT, iI, metaOff, metaTable] using r0, by decide, by decide⟩
-    · refine ⟨iD, ?_, by decide, by decide⟩
-      have e : ([iI, iD].drop 0).flatten.drop 40 = encodeInode (wT.ino 1) ++ iD := by decide
+    · exact ⟨encodeInode wFile ++ (iD ++ iNext), by simpa [iO, wT, iI, metaOff, metaTable] using r0, by decide, by decide⟩
+    · refine ⟨iD ++ iNext, ?_, by decide, by decide⟩
+      have e : ([iI, iD, iNext].drop 0).flatten.drop 40 = encodeInode (wT.ino 1) ++ (iD ++ iNext) := by decide
       rw [e] at r1
       simpa [iO, wT, metaOff, metaTable] using r1
   · intro k hk
@@ -430,13 +453,13 @@ private theorem iShows : ImgShows mark iDev iO wT iA := by
       simp [wT, STree.dent, DEnt.WF, wRoot, wFile, basicTyp, IBody.typ, typeSize]
   · intro d hd sb off sz hl
     rcases two d hd with rfl | rfl
-    · simp [wT, wRoot, listingRef] at hl
+    · simp [wT, wRoot, dirAsk] at hl
       obtain ⟨rfl, rfl, rfl⟩ := hl
-      refine ⟨[], ?_, by decide⟩
-      have e : ([iD].drop 0).flatten.drop 0 = encodeListing 0 ((wT.kids 0).map wT.dent) ++ [] := by decide
+      refine ⟨iNext, ?_, by decide, by decide⟩
+      have e : ([iD, iNext].drop 0).flatten.drop 0 = encodeListing 0 ((wT.kids 0).map wT.dent) ++ iNext := by decide
       rw [e] at rD
       simpa [iO, metaOff, metaTable] using rD
-    · simp [wT, wFile, listingRef] at hl
+    · simp [wT, wFile, dirAsk] at hl
   · intro k hk
     rcases two k hk with rfl | rfl <;> simp [wT, wRoot, wFile, iO, iA]
   · intro k hk
@@ -500,5 +523,44 @@ example : HoldsAt exDev3 0 (storedBytes (fileStored rle exOpt exEnt)) := by unfo
 example : FragOK rle false exDev3 [⟨1, 4, false⟩] (tailOf exOpt exEnt) (some (0, 1)) :=
   Or.inr ⟨by decide, ⟨1, 4, false⟩, [9, 7, 8, 9], by decide, by decide, by decide⟩
 example : fileBytes rle exDev3 4 [⟨1, 4, false⟩] (mkBody rle exOpt exEnt 0 (some (0, 1)) (0, 0, 0)) = some [5, 5, 5, 5, 7, 8] := by decide
+
+/-- **writer ∘ reader = id on the bytes of the image.**  `bImage c o fl fuel` is the image the model
+    of `Finalize` (Model/Sqfs/ImageWr.lean: data blocks, packed fragment blocks, inodes with their
+    references, directory listings, the five metadata tables with their indexes, the superblock —
+    byte-identical to what the real Finalize writes in the correspondence) lays out for the file
+    list `fl` that `walkTree` returns.  On ANY device that shows these bytes, for every codec
+    obeying the two laws, every block size, compressed or uncompressed data / fragments / metadata,
+    exportable or not: the model of `Read` + the walk of ReadDir / ReadFile (`readImageS`,
+    Model/Sqfs/ImageRd.lean) returns the superblock that was written and exactly the depth-first
+    walk of the file list: every path, every decoded inode, the owner ids and, for regular files,
+    the contents.  `Limits` are the stated limits: every inode at most 8 KiB, the whole directory
+    table inside one metadata block and not empty (listings beyond the first block are the
+    recorded finding sqfs-dir-startblock-index), at most 16384 owner ids, kinds file / directory /
+    symlink, every directory reachable from the root, and the numeric field bounds (`WF`) of the
+    built inodes, entries, fragment entries and superblock. -/
+theorem writer_reader_roundtrip (c : Codec) (o : WOpt) (fl : List FEnt) (fuel : Nat) (L : Limits c o fl fuel)
+    (hroot : (fl.getD 0 FEnt.nil).kind = 1) (img : Dev) (h : HoldsAt img 0 (bImage c o fl fuel)) (f : Nat)
+    (hfit : (bTree c o fl fuel).Fits f 0) :
+    readImageS c img f = some (bSB c o fl fuel, expectWalk fl (bInodes c o fl fuel) f [] 0) :=
+  image_round_trip c o fl fuel L hroot img h f hfit
+
+/-! non-vacuity: root { a (6 bytes: one block that `rle` compresses + a 2-byte tail), d { b (3 bytes) }, l -> a }, block size 4 -/
+private def rtFl : List FEnt :=
+  [ { name := [46], kind := 1, mode := 0o755, uid := 0, gid := 0, mtime := 1, links := 3, data := [], kids := [1, 2, 4] },
+    { name := [97], kind := 0, mode := 0o644, uid := 1000, gid := 100, mtime := 2, links := 1, data := [5, 5, 5, 5, 7, 8], kids := [] },
+    { name := [100], kind := 1, mode := 0o755, uid := 0, gid := 0, mtime := 3, links := 2, data := [], kids := [3] },
+    { name := [98], kind := 0, mode := 0o600, uid := 1000, gid := 0, mtime := 4, links := 1, data := [1, 2, 3], kids := [] },
+    { name := [108], kind := 2, mode := 0o777, uid := 0, gid := 0, mtime := 5, links := 1, data := [97], kids := [] } ]
+private def rtDev : Dev := fun i => (bImage rle exOpt rtFl 2).getD i 0
+set_option maxRecDepth 20000 in
+private theorem rtLimits : Limits rle exOpt rtFl 2 := limits_of_check rle exOpt rtFl 2 (by decide)
+set_option maxRecDepth 20000 in
+example : (bImage rle exOpt rtFl 2).length = 501 := by decide
+set_option maxRecDepth 20000 in
+example : readImageS rle rtDev 2 = some (bSB rle exOpt rtFl 2, expectWalk rtFl (bInodes rle exOpt rtFl 2) 2 [] 0) :=
+  writer_reader_roundtrip rle exOpt rtFl 2 rtLimits (by decide) rtDev (by unfold HoldsAt; decide) 2
+    (fits_of_check rle exOpt rtFl 2 rtLimits 2 0 (by decide) (by decide))
+example : (expectWalk rtFl (bInodes rle exOpt rtFl 2) 2 [] 0).map (fun e => (e.path, e.uid, e.data)) =
+    [([[97]], 1000, [5, 5, 5, 5, 7, 8]), ([[100]], 0, []), ([[100], [98]], 1000, [1, 2, 3]), ([[108]], 0, [])] := by decide
 
 end Diskfs.Sqfs.C07
